@@ -7,6 +7,7 @@ stacks of these), the graph is snapshotted again, and the model (Run/RunHeap.v, 
 initial heap.  Compared: the content of every input object afterwards and the output graph up to a renaming of new
 objects that fixes the input ids - i.e. the exact sharing pattern, in both modes.
 """
+from props import pubapi
 import json
 
 PROBES = 9
@@ -80,7 +81,7 @@ def make_probe(n, inplace):
 
         def _any(self, block, library):
             if n == 3:
-                block._parser_metadata = {S_PROBE: C_CONST}
+                pubapi.set_backing(block, "block.parser_metadata", {S_PROBE: C_CONST})
             return block
 
         transform_preamble = transform_explicit_comment = transform_implicit_comment = _any
